@@ -23,11 +23,19 @@ def _list_may_be_empty(mh) -> bool:
     return False
 
 
+def _is_list_alias(ty) -> bool:
+    """Generic aliases of list subclasses (GengyList[int]) are lists"""
+    o = get_origin(ty)
+    return isinstance(o, type) and issubclass(o, list)
+
+
 class Analysis:
     def __init__(self, classes, start, expansion_depthing: bool = False, lists_transparent_nonempty: bool = False):
         """lists_transparent_nonempty=True reproduces the repository's documented simplification
         that a list contributes the depth of its element type even when it may be empty."""
         self.classes = list(classes)
+        if start not in self.classes:  # the start symbol is itself supplied (it may be a production of a type it mentions)
+            self.classes.append(start)
         self.start = start
         # a class named as a field type is supplied by that declaration even if it is not listed
         # (the library registers it, and with it its place under its abstract parent)
@@ -38,7 +46,7 @@ class Analysis:
                 if isinstance(c, type) and not is_abstract(c):
                     for _, fty in fields(c):
                         for m in self.components(fty):
-                            if m not in self.classes and m is not start:
+                            if m not in self.classes:
                                 self.classes.append(m)
                                 grew = True
         self.exp = 1 if expansion_depthing else 0
@@ -55,7 +63,7 @@ class Analysis:
         """class symbols directly mentioned by a type form"""
         if get_origin(ty) is typing.Annotated:
             yield from self.components(get_args(ty)[0])
-        elif get_origin(ty) in (list, tuple, Union):
+        elif get_origin(ty) in (list, tuple, Union) or _is_list_alias(ty):
             for a in get_args(ty):
                 yield from self.components(a)
         elif isinstance(ty, type) and ty not in BASE:
@@ -93,7 +101,7 @@ class Analysis:
             return self.type_min(base, d)
         if ty in BASE:
             return self.exp if self.exp else 0
-        if o is list:
+        if o is list or _is_list_alias(ty):
             if not self.nonempty:
                 return self.exp  # a bare list may be empty
             return self.exp + self.type_min(get_args(ty)[0], d)
